@@ -1,12 +1,11 @@
 CONSTANTS
-  TermsOf <- AbsTerms
-  ShortOf <- AbsShort
+  LabelTerms <- AbsTerms
   Variant = "ok"
   Labels <- L5
   MaxNodes = 3
   MaxDepth = 4
   Alphabet <- AlphaCore
   MaxToks = 1
-  Gen <- GenSmallQ
+  Big = FALSE
 SPECIFICATION SpecTrees
-INVARIANT EmitTree
+INVARIANT EmitSmall
